@@ -155,7 +155,7 @@ def judge(e, src, out, setting):
 
 
 # ---- document generator -----------------------------------------------------------------------------------------------------
-def gen_document(e, L, one_paragraph=False, commas=False, rich=True):
+def gen_document(e, L, one_paragraph=False, commas=False, rich=True, odd_ws=False):
     nl = e.choose('L', L) + 1
     text = []; prev = 'blank'; kinds = []; fi = 0; ci = 0; have_field = False
     for i in range(nl):
@@ -171,7 +171,10 @@ def gen_document(e, L, one_paragraph=False, commas=False, rich=True):
             sp = [[32], [], [32, 32]][e.choose('sp', 3 if rich else 2)] if fi == 1 else [32]
             if not v and sp == [32, 32]: sp = [32]
             text += o(name) + [58] + sp + v + [10]
-        elif k == 'cont': text += [32] + ([32] if e.choose('ind', 2) else []) + [e.fresh_ascii('w', lower)] + [10]
+        elif k == 'cont':
+            # with a formatter: the value line may begin with a form feed (Unicode whitespace, but value text for deb822)
+            ff = [12] if (odd_ws and e.choose('ff', 2)) else []
+            text += [32] + ([32] if e.choose('ind', 2) else []) + ff + [e.fresh_ascii('w', lower)] + [10]
         elif k == 'comment': text += o('# c%d' % ci) + [10]; ci += 1
         else:
             text += [10] + ([10] if (rich and e.choose('dbl', 2)) else [])
@@ -188,7 +191,7 @@ class C07(Harness):
     fuel = 900000
     bounds = {'quick': {'lines': 3, 'indents': [2, 0], 'maxlens': [None, 6], 'control_lines': True},
               'thorough': {'lines': 4, 'indents': [1, 2, 3, 0], 'maxlens': [None, 6, 80], 'control_lines': True}}
-    assumptions = ['documents of 1..L lines, each a field (names from the fixed file order B A D A C E, so unsorted and with a duplicate), a continuation line, a unique comment line, or a blank line (single or double; in the quick tier double blank lines and two blanks after the colon only in the plain-settings cases); value lines are one symbolic lower-case letter (the first field may have an empty first line, i.e. be empty or start on the next line) (the first field "x, y" in the comma-formatter cases); final newline optional; 0-2 blanks after the colon of the first field',
+    assumptions = ['documents of 1..L lines, each a field (names from the fixed file order B A D A C E, so unsorted and with a duplicate), a continuation line, a unique comment line, or a blank line (single or double; in the quick tier double blank lines and two blanks after the colon only in the plain-settings cases); value lines are one symbolic lower-case letter, in the identity-formatter cases optionally preceded by a form feed on continuation lines (the first field may have an empty first line, i.e. be empty or start on the next line) (the first field "x, y" in the comma-formatter cases); final newline optional; 0-2 blanks after the colon of the first field',
                    'settings (quick: 4 of the 12 comparator/formatter combinations at document level and 3 of 6 at paragraph level, thorough: all): indentation Spaces(n) for the listed n or FieldNameLength; immediate_empty_line both; max_line_length_one_liner None / small / large; entry comparator none / by field name; paragraph comparator none / by first field name; value formatter none / identity / "split at commas, one piece per line"',
                    'levels (the paragraph level starts with a field - comments in front of the first field belong to the document - and applies the second pass to the returned paragraph): Deb822::wrap_and_sort with a paragraph closure calling Paragraph::wrap_and_sort; Deb822::wrap_and_sort without a paragraph closure; Paragraph::wrap_and_sort on single-paragraph texts; Control::wrap_and_sort on control files with Source / Package paragraphs, an Uploaders list and a relation field',
                    'comment lines inside a multi-line value are outside the domain (C03)']
@@ -284,7 +287,7 @@ class C07(Harness):
         st = {'indent': case['indents'][e.choose('indent', len(case['indents']))], 'immediate': (bool(e.choose('imm', 2)) if case.get('fixed_imm') is None else case['fixed_imm']), 'maxlen': case['maxlens'][e.choose('maxlen', len(case['maxlens']))],
               'sort_entries': case['sort_entries'], 'sort_paragraphs': case['sort_paragraphs'], 'formatter': case['formatter']}
         if case['level'] == 'control': text, meta = self.control_text(e)
-        else: text, kinds = gen_document(e, case['L'], one_paragraph=(case['level'] == 'paragraph'), commas=(case['formatter'] == 'comma-lines'), rich=case.get('rich', True))
+        else: text, kinds = gen_document(e, case['L'], one_paragraph=(case['level'] == 'paragraph'), commas=(case['formatter'] == 'comma-lines'), rich=case.get('rich', True), odd_ws=(case['formatter'] == 'identity'))
         st['reformats'] = case['level'] != 'doc-plain'
         e.inputs.update(s=Str(text), level=case['level'], setting=st)
         r1 = self.one_pass(e, case, st, text)
